@@ -329,6 +329,7 @@ var GlobalAssumptions = []string{
 	"A5: pointers are owned boxes: two distinct pointer-typed variables/fields never alias the same object unless the contract says so (noalias/fresh rules check the places where the code would create such aliasing for C10/C19)",
 	"A6: inferred field frames: a callee leaves a struct field unchanged when neither it nor anything reachable from it in the over-approximate call graph (interface dispatch by method name; calls through function values reach every closure literal and every function used as a value) assigns the field, takes its address, stores a whole struct of that type through a pointer, hands a pointer to it to a library function, or - for non-scalar fields - mentions it in a function that is not syntactically read-only (sound under A5)",
 	"A7: an unsat answer from one SMT solver is accepted in the quick tier",
+	"A11: (C03 alias analysis) library functions neither write through nor retain reference arguments except the listed mutators (sort.*, slices.Sort*, io.ReadFull, Read/ReadAt/Decode/Scan methods, Unmarshal); append on a package-level slice reallocates (cap == len for composite literals); reflection/unsafe/goroutine hand-off are not followed",
 	"A9: values of library struct types (zip.File, html.Node, ...) are opaque; library calls on them do not change the fields contracts read",
 }
 
